@@ -408,7 +408,7 @@ func (p *sparser) primary() Expr {
 var clauseKeywords = map[string]bool{
 	"property": true, "requires": true, "ensures": true, "modifies": true, "pure": true,
 	"inline": true, "loop": true, "on": true, "ghostvar": true, "safety": true,
-	"noverify": true, "opt": true, "axiom": true, "uses": true,
+	"noverify": true, "opt": true, "axiom": true, "uses": true, "literal": true, "closedworld": true, "goframes": true,
 }
 var blockKeywords = map[string]bool{
 	"func": true, "closure": true, "ghost": true, "lemma": true, "trusted": true, "funcfield": true,
@@ -616,6 +616,21 @@ func parseContractLines(pkgPath, path string, lines []string) (*ContractFile, er
 				cur.HasMod = true
 			case "noverify":
 				cur.NoVerify = true
+			case "closedworld":
+				cur.ClosedWorld = true
+			case "goframes":
+				cur.GoFrames = true
+			case "literal":
+				// literal <pkg.Type> == "<canonical text>"
+				f := strings.SplitN(rest, "==", 2)
+				if len(f) != 2 {
+					return nil, fmt.Errorf("%s: bad literal clause: %s", path, rest)
+				}
+				want, err := strconv.Unquote(strings.TrimSpace(strings.ReplaceAll(f[1], "\n", "")))
+				if err != nil {
+					return nil, fmt.Errorf("%s: bad literal clause text: %v", path, err)
+				}
+				cur.Literals = append(cur.Literals, [2]string{strings.TrimSpace(f[0]), want})
 			case "safety":
 				for _, s := range strings.Fields(strings.ReplaceAll(rest, ",", " ")) {
 					cur.Safety[s] = true
